@@ -162,9 +162,13 @@ Symptoms == Allowed \cup {"crash", "oob", "ub", "alloc", "hang"}
 (* and leaves ".25" for the next field), hence the factor 2.                    *)
 (* A catalogue list yields at most one entry per non-empty line.                *)
 Floods(s) == Cardinality({i \in 1..Len(s) : Text(s[i]) = "<FLOOD0>"})
-Bound(s) == [values |-> 2 * (NumTok(s) + 5000 * Floods(s)), entries |-> NumLines(s) + 5000 * Floods(s)]
+(* When the fault leaves every remaining token whole and in place (a truncation, another line-end convention) there is   *)
+(* no such split: a delivered value then needs a token of its own - a record cut in the middle cannot be delivered with   *)
+(* its missing fields filled in from somewhere else (tight = TRUE).                                                       *)
+AlignedKinds == {"none", "truncate", "crlf", "nofinalnl", "empty", "wsonly"}
+Bound(s, tight) == [values |-> (IF tight THEN 1 ELSE 2) * (NumTok(s) + 5000 * Floods(s)), entries |-> NumLines(s) + 5000 * Floods(s)]
 
-Required(s) == [allowed |-> Allowed, bound |-> Bound(s)]
+Required(s, tight) == [allowed |-> Allowed, bound |-> Bound(s, tight)]
 
 (* An observation of the real loader on a case (all fields integers/strings):  *)
 (*   sym      one of Symptoms                                                    *)
@@ -176,17 +180,17 @@ Required(s) == [allowed |-> Allowed, bound |-> Bound(s)]
 (*            non-comment line); what a later shoot computes from an accepted   *)
 (*            table is not judged, only that it does not crash / hang           *)
 (*   alien    number of delivered entries that do not occur in the document     *)
-Accept(s, o) ==
+Accept(b, o) ==
   /\ o.sym \in Allowed
   /\ o.invalid = 0
   /\ o.alien = 0
-  /\ o.values <= Bound(s).values
-  /\ o.entries <= Bound(s).entries
+  /\ o.values <= b.values
+  /\ o.entries <= b.entries
 
-Why(s, o) ==
+Why(b, o) ==
   IF o.sym \notin Allowed THEN o.sym
   ELSE IF o.invalid # 0 \/ o.alien # 0 THEN "garbage"
-  ELSE IF o.values > Bound(s).values \/ o.entries > Bound(s).entries THEN "invented"
+  ELSE IF o.values > b.values \/ o.entries > b.entries THEN "invented"
   ELSE "ok"
 
 -----------------------------------------------------------------------------
@@ -199,7 +203,7 @@ Init ==
   /\ fmt \in Formats
   /\ doc = Doc[fmt]
   /\ fault = NoFault
-  /\ verdict = Required(doc)
+  /\ verdict = Required(doc, TRUE)
 
 Inject(k, i) ==
   /\ fault = NoFault
@@ -207,7 +211,7 @@ Inject(k, i) ==
   /\ (IF i = 0 THEN k \in DocKinds /\ ApplicableDoc(fmt, k) ELSE k \in PosKinds /\ Applicable(fmt, k, i)) = TRUE
   /\ doc' = Apply(fmt, k, i)
   /\ fault' = [kind |-> k, pos |-> i, role |-> IF i = 0 THEN "doc" ELSE Role(Doc[fmt][i]), crlf |-> (k = "crlf")]
-  /\ verdict' = Required(doc')
+  /\ verdict' = Required(doc', k \in AlignedKinds)
   /\ UNCHANGED fmt
 
 Next == \/ \E k \in PosKinds, i \in 1..Len(Doc[fmt]) : Inject(k, i)
